@@ -53,10 +53,12 @@ type vfC06RealCase struct {
 	FastOpen bool   `json:"fast_open"`
 	VetoAt   int    `json:"veto_at"` // n-th LogTraffic call of the vetoed direction
 	CutAt    int    `json:"cut_at"`  // t_rst: target resets after having written this many bytes
+	SlowUs   int    `json:"slow_us"` // c_close_slow: the target pauses this long after every read (workload only)
+	LateMs   int    `json:"late_ms"` // c_close_slow: the target starts reading this late (workload only)
 	Salt     uint64 `json:"salt"`
 }
 
-var vfC06RealModes = []string{"c_close_ii", "t_close_ii", "t_halfclose_ii", "t_rst", "veto_rx", "veto_tx", "veto_rx", "dial_refused"}
+var vfC06RealModes = []string{"c_close_ii", "t_close_ii", "t_halfclose_ii", "t_rst", "veto_rx", "veto_tx", "veto_rx", "dial_refused", "c_close_slow"}
 
 func vfC06RealGen(k *vfKit, i int) vfC06RealCase {
 	id := fmt.Sprintf("c06real-%d", i)
@@ -72,6 +74,11 @@ func vfC06RealGen(k *vfKit, i int) vfC06RealCase {
 	switch c.Mode {
 	case "c_close_ii":
 		c.Up = size()
+	case "c_close_slow": // big upload into a target that consumes more slowly than the relay writes
+		c.Up = 1<<20 + r.Intn(3<<20)
+		c.ReadBuf = 8192 + r.Intn(24<<10)
+		c.SlowUs = 300 + r.Intn(1200)
+		c.LateMs = 100 + r.Intn(400)
 	case "t_close_ii", "t_halfclose_ii":
 		c.Down = size()
 	case "t_rst":
@@ -143,10 +150,18 @@ func (rs *vfC06RealRelay) arrive(dir int, b []byte, kind string) {
 func (rs *vfC06RealRelay) recvLoop(dir int, rd io.Reader, bufSize int, kind string) {
 	defer close(rs.recvDone[dir])
 	buf := make([]byte, bufSize)
+	pause := time.Duration(0)
+	if dir == vfC06Up && rs.c.SlowUs > 0 {
+		pause = time.Duration(rs.c.SlowUs) * time.Microsecond
+		time.Sleep(time.Duration(rs.c.LateMs) * time.Millisecond) // a busy service; workload, not a verdict
+	}
 	for {
 		n, err := rd.Read(buf)
 		if n > 0 {
 			rs.arrive(dir, buf[:n], kind)
+		}
+		if pause > 0 && err == nil {
+			time.Sleep(pause) // a slow consumer; this is workload, no verdict depends on it
 		}
 		if err != nil {
 			rs.mu.Lock()
@@ -415,15 +430,21 @@ func (w *vfC06RealWorld) runCase(c *vfC06RealCase) *vfC06RealOutcome {
 		return out
 	}
 	defer tgt.Close()
-	go rs.recvLoop(vfC06Up, tgt, 32<<10, "tgt_read")
+	tgtBuf := 32 << 10
+	if c.Mode == "c_close_slow" {
+		tgtBuf = c.ReadBuf // default socket buffers: the relay's writes pile up in the kernel while the target is slow
+	}
+	go rs.recvLoop(vfC06Up, tgt, tgtBuf, "tgt_read")
 
 	var wg sync.WaitGroup
 	switch c.Mode {
-	case "c_close_ii":
+	case "c_close_ii", "c_close_slow":
 		rs.send(vfC06Up, conn, c.Up, -1, rUp)
 		_ = conn.Close()
 		if !vfC06RealWait(rs.recvDone[vfC06Up]) {
-			out.incon = "target did not see the end of the stream (watchdog)"
+			rs.mu.Lock()
+			out.incon = fmt.Sprintf("target did not see the end of the stream (watchdog); client wrote %d of %d, target has %d", rs.sent[vfC06Up], c.Up, rs.got[vfC06Up])
+			rs.mu.Unlock()
 		}
 	case "t_close_ii":
 		rs.send(vfC06Down, tgt, c.Down, -1, rDown)
@@ -523,7 +544,7 @@ func TestVerifC06Real(t *testing.T) {
 		}
 		return
 	}
-	n := k.N(32, 240)
+	n := k.N(36, 270)
 	cases := make([]*vfC06RealCase, 0, n)
 	for i := 0; i < n; i++ {
 		c := vfC06RealGen(k, i)
@@ -694,7 +715,7 @@ func vfC06RealJudge(k *vfKit, outs []*vfC06RealOutcome, evs []vfEvent) {
 		if o.incon == "" {
 			d := -1
 			switch c.Mode {
-			case "c_close_ii":
+			case "c_close_ii", "c_close_slow":
 				d = vfC06Up
 			case "t_close_ii", "t_halfclose_ii":
 				d = vfC06Down
@@ -712,6 +733,12 @@ func vfC06RealJudge(k *vfKit, outs []*vfC06RealOutcome, evs []vfEvent) {
 						"real sockets, %s (%s) %s: sender wrote %d bytes and closed with the other direction idle; receiver got %d, then %v", c.CaseID, c.Mode, names[d], want, got[d], endErr[d])
 				default:
 					k.Count("ev_complete_shape_ii", 1)
+					if c.Mode == "c_close_slow" {
+						k.Count("ev_complete_slow_target", 1)
+						if endErr[d] != io.EOF {
+							k.Count("slow_target_complete_but_not_eof", 1)
+						}
+					}
 				}
 			}
 		}
